@@ -35,7 +35,10 @@ pub fn create_promise_constructor(interp: &mut Interpreter) -> Gc<JsObject> {
     interp
         .promise_prototype
         .borrow_mut()
-        .set_property(constructor_key, JsValue::Object(ctor.clone()));
+        .define_property(
+            constructor_key,
+            crate::value::Property::with_attributes(JsValue::Object(ctor.clone()), true, false, true),
+        );
 
     // Static methods
     interp.register_method(&ctor, "resolve", promise_resolve_static, 1);
